@@ -35,6 +35,7 @@ SIMPLE_DECODERS = [
     "multidecoder.decoders.network.find_emails",
     "multidecoder.decoders.network.find_ips",
     "multidecoder.decoders.network.is_url",
+    "multidecoder.decoders.network.is_ip",
     "multidecoder.decoders.network.normalize_percent_encoding.normalize_percent",
     "multidecoder.decoders.network.normalize_percent_encoding",
     "multidecoder.decoders.network._is_printable",
@@ -52,7 +53,7 @@ SHELL_FUNCS = ["multidecoder.decoders.shell.strip_carets", "multidecoder.decoder
 
 NOT_UNDER_CONTRACT = (
     "every decoder the default registry ships is under a deductive contract (DecoderOK); ASSUMED contracts of library code they sit on: pefile (pe_size), xortool, "
-    "ipaddress / socket (is_ip assumed; parse_ip / parse_ipv6 verified against uninterpreted models of inet_aton / inet_pton / IPv4Address / IPv6Address), regex.sub with a callback (ASSUMED to replace every match m by callback(m) and keep the rest; the callback of normalize_percent_encoding is verified: never longer than the match, printable), ntpath (normpath, splitext: opaque, so the list indexes of "
+    "ipaddress / socket (is_ip, parse_ip, parse_ipv6 are verified against uninterpreted models of inet_aton / inet_pton / IPv4Address / IPv6Address), regex.sub with a callback (ASSUMED to replace every match m by callback(m) and keep the rest; the callback of normalize_percent_encoding is verified: never longer than the match, printable), ntpath (normpath, splitext: opaque, so the list indexes of "
     "find_windows_path into the normalised path are demoted to the run-time stand-in), str.isprintable (an uninterpreted predicate), struct.unpack_from, urlsplit"
 )
 
